@@ -4,13 +4,13 @@ import SignaloModel.Model.PipesSink
 /-!
 # C01 — Pipes compose stages as sequential function application
 
-Property theorems for C01 (statements are printed by `#check`, axioms by `#check @PipeRegistry.stage_run_eq
-#check @PipeRegistry.stage_run_leafOut
-#print axioms`;
-`bin/check C01` re-elaborates this file on every run and audits the axiom lists).
+The property theorems for C01: `#check` prints each statement, `#print axioms` its axioms;
+`bin/check C01` re-elaborates this file on every run and audits the axiom lists.
 -/
 open SignaloModel
 
+#check @PipeRegistry.stage_run_eq
+#check @PipeRegistry.stage_run_leafOut
 #check @Pipes.run_eq_seq
 #check @Pipes.run_congr
 #check @Pipes.Stage.length_run
@@ -18,11 +18,11 @@ open SignaloModel
 #check @Pipes.runOpt_none_iff
 #check @Pipes.finalize_eq
 
+#print axioms PipeRegistry.stage_run_eq
+#print axioms PipeRegistry.stage_run_leafOut
 #print axioms Pipes.run_eq_seq
 #print axioms Pipes.run_congr
 #print axioms Pipes.Stage.length_run
 #print axioms Pipes.pulls_eq
 #print axioms Pipes.runOpt_none_iff
 #print axioms Pipes.finalize_eq
-#print axioms PipeRegistry.stage_run_eq
-#print axioms PipeRegistry.stage_run_leafOut
